@@ -20,5 +20,13 @@ def build(src, tier):
     from contracts import queues as Q
     wm = base_world(src)
     Q.install(wm)
-    out += [(wm, [I.t_clear('clear_trace')])]
+    # the trace wrapper reads the step's tuples: that the post/defer/recall markers add none of their own is part of
+    # the summary it relies on (marker[...]:post/no-tuple)
+    out += [(wm, I.marker_targets() + [I.t_clear('clear_trace')])]
+    # which invocations are logged as internal ones is decided by SignalSource.is_inner_signal: its contract (true
+    # exactly for the built-in signals, whatever their names look like) is part of this property too
+    from . import C25
+    wr = base_world(src)
+    out += [(wr, [C25.t_is_inner('name'), C25.t_is_inner('number')])]
+
     return out
